@@ -114,17 +114,29 @@ Definition wfc (c : cmd) : Prop :=
   /\ (forall ch, find_short_subcmd c ch = None)
   /\ (forall a, In a (c_args c) -> a_is_positional a = true -> a_index a <> None).
 
-(** a state predicate closed under the primitive matcher operations (see Invariant.v) *)
-Definition closedP (P : list (id * marg) -> N -> Prop) : Prop :=
+(** a state predicate closed under the primitive matcher operations (see Invariant.v); [V] is the
+    provenance predicate on values that the "push a value" operation may rely on *)
+Definition closedP (c : cmd) (V : bytes -> Prop) (P : list (id * marg) -> N -> Prop) : Prop :=
   (forall l k, P l k -> P l (k + 1))
   /\ (forall l k i, P l k -> P (fst (fm_remove i l)) k)
   /\ (forall l k i ic grp s, P l k ->
         P (fm_entry_or_insert i (marg_new ic grp) (fun m => new_val_group (set_source s m)) l) k)
-  /\ (forall l k i m m' v, P l k -> fm_get i l = Some m -> append_val v m = Some m' ->
+  /\ (forall l k i j m m' v, In i (groups_for_arg c j) ->
+        P l k -> fm_get i l = Some m -> append_val v m = Some m' ->
         P (fm_update i (fun _ => m') l) k)
-  /\ (forall l k i m m' v, P l k -> fm_get i l = Some m -> append_val v m = Some m' ->
+  /\ (forall l k i m m' v, V v -> P l k -> fm_get i l = Some m -> append_val v m = Some m' ->
         P (fm_update i (push_index (k + 1)) (fm_update i (fun _ => m') l)) (k + 1))
   /\ P [] 0.
+
+(** what a provenance predicate must admit at one level: the action literals, the pieces of an
+    admitted value, and the values the definition itself declares *)
+Definition Vok (c : cmd) (V : bytes -> Prop) : Prop :=
+  V s_true /\ V s_false /\ (forall n, V (n_to_dec n))
+  /\ (forall v d l, V v -> Lex.OsStrExtModel.split v d = Lex.OsStrExtModel.SplitOk l -> Forall V l)
+  /\ (forall a, In a (c_args c) -> Forall V (a_default_missing a))
+  /\ (forall a, In a (c_args c) -> Forall V (a_default a))
+  /\ (forall a v, In a (c_args c) -> a_env a = Some v -> V v)
+  /\ (forall a i p d, In a (c_args c) -> In (i, p, Some d) (a_default_ifs a) -> V d).
 
 (** what the tree must satisfy, level by level, along every chain of built subcommands *)
 Fixpoint tree_ok (fuel : nat) (c : cmd) : Prop :=
@@ -135,21 +147,25 @@ Fixpoint tree_ok (fuel : nat) (c : cmd) : Prop :=
   end.
 
 Section Tree.
-Variable P : list (id * marg) -> N -> Prop.
-Hypothesis HP : closedP P.
+(** predicates indexed by the level (its command and its token list) *)
+Variable V : cmd -> list bytes -> bytes -> Prop.
+Variable P : cmd -> list bytes -> list (id * marg) -> N -> Prop.
+Hypothesis HP : forall c toks, closedP c (V c toks) (P c toks).
+Hypothesis HV : forall c toks, Vok c (V c toks) /\ Forall (fun tok => forall n, V c toks (skipn n tok)) toks.
 (** the validator's own panic sites (validator.rs) are dealt with separately *)
 Hypothesis validate_total : forall c m, wfc c -> assert_app c = true ->
   entries_ok c (mt_args m) -> forall s, validate c m <> VPanic s.
 
-Lemma gmw_safe : forall fuel c toks st0, tree_ok fuel c -> G c P st0 ->
-  safe (G c P) (G c P) (get_matches_with fuel c toks st0).
+Lemma gmw_safe : forall fuel c toks st0, tree_ok fuel c -> G c (P c toks) (V c toks) st0 ->
+  safe (G c (P c toks) (V c toks)) (G c (P c toks) (V c toks)) (get_matches_with fuel c toks st0).
 Proof.
-  destruct HP as [PC1 [PC2 [PC3 [PC4 [PC5 PC0]]]]].
   induction fuel as [|f IH]; intros c toks st0 Hok HG; [destruct Hok|].
+  destruct (HP c toks) as [PC1 [PC2 [PC3 [PC4 [PC5 PC0]]]]].
+  destruct (HV c toks) as [[V1 [V2 [V3 [V4 [V5 [V6 [V7 V8]]]]]]] HVtoks].
   destruct Hok as [Hwf [Happ Hch]]. pose proof Hwf as [W1 [W2 [W3 [W4 W5]]]].
   cbn [get_matches_with].
   match goal with |- safe _ _ (match ?pp with ROk _ => _ | RErr _ _ => _ | RPanic _ => _ end) => set (parsed := pp) end.
-  assert (Hparsed : safe (G c P) (G c P) parsed).
+  assert (Hparsed : safe (G c (P c toks) (V c toks)) (G c (P c toks) (V c toks)) parsed).
   { subst parsed. eapply safe_bind.
     - eapply parse_loop_safe; try eassumption. exact I.
     - intros lr Hlr. destruct lr as [st|name keep vaf st rest|name vals st|names st].
@@ -161,7 +177,8 @@ Proof.
         pose proof (Hch _ _ Eb) as Hsc.
         destruct f as [|f']; [destruct Hsc|].
         pose proof Hsc as [_ [Happsc _]]. rewrite Happsc. cbn [negb].
-        pose proof (IH sc rest ps_new Hsc (G_ps_new sc P PC0)) as Hsub.
+        destruct (HP sc rest) as [_ [_ [_ [_ [_ PC0s]]]]].
+        pose proof (IH sc rest ps_new Hsc (G_ps_new sc (P sc rest) (V sc rest) PC0s)) as Hsub.
         destruct (get_matches_with (S f') sc rest ps_new) as [sub_st|e sub_st|site]; cbn in Hsub.
         * apply G_set_sub; exact HGs.
         * destruct (is_set s_ignore_errors c); [apply G_set_sub; exact HGs|exact HGs].
@@ -184,11 +201,11 @@ Proof.
     destruct (validate c (mt st3)) as [|k a|s] eqn:Ev; [exact HG3|exact HG3|].
     exfalso. apply (validate_total c (mt st3) Hwf Happ) with (s := s); [apply HG3|exact Ev].
   - destruct (is_set s_ignore_errors c); [|exact Hparsed].
-    assert (He : safe (G c P) (G c P) (add_env c st)) by (eapply add_env_safe; eassumption).
+    assert (He : safe (G c (P c toks) (V c toks)) (G c (P c toks) (V c toks)) (add_env c st)) by (eapply add_env_safe; eassumption).
     destruct (add_env c st) as [s1|e1 s1|x1]; cbn in He; [| |contradiction].
-    + assert (Hd : safe (G c P) (G c P) (add_defaults c s1)) by (eapply add_defaults_safe; eassumption).
+    + assert (Hd : safe (G c (P c toks) (V c toks)) (G c (P c toks) (V c toks)) (add_defaults c s1)) by (eapply add_defaults_safe; eassumption).
       destruct (add_defaults c s1) as [s2|e2 s2|x2]; cbn in Hd; [exact Hd|exact Hd|contradiction].
-    + assert (Hd : safe (G c P) (G c P) (add_defaults c s1)) by (eapply add_defaults_safe; eassumption).
+    + assert (Hd : safe (G c (P c toks) (V c toks)) (G c (P c toks) (V c toks)) (add_defaults c s1)) by (eapply add_defaults_safe; eassumption).
       destruct (add_defaults c s1) as [s2|e2 s2|x2]; cbn in Hd; [exact Hd|exact Hd|contradiction].
 Qed.
 End Tree.
